@@ -516,6 +516,14 @@ def run(ctx):
         "to the same process",
         "crash = process killed between two operations: descriptors closed, "
         "record locks released, files stay; a crashed process is not running",
+        "identical processes: states that differ only by renaming the "
+        "processes are one state; os.getpid() (only written into the lock "
+        "files, never read) returns the same number for all of them",
+        "'restart' spaces: process 0 runs the program twice in a row (exit, "
+        "then a new session), which gives three sessions on two threads",
+        "sockets / EtherCat.connect and the eBPF code generation of the "
+        "dispatcher are stubbed (EtherXDP -> load/close/_netlink on the "
+        "simulated bpf + interface; the real XDP.attach / XDP.detach run)",
     ]
     return res
 
